@@ -99,7 +99,14 @@ type PathResult struct {
 	Sched     []string
 	Steps     int
 	Inputs    []inputRec
+	Exports   []exportRec
 	Violated  string
+}
+
+type exportRec struct {
+	Name string
+	Term *Term
+	Val  uint64
 }
 
 type inputRec struct {
@@ -466,6 +473,10 @@ func (in *Interp) finishWitness() {
 	for i := range in.res.Observes {
 		in.res.Observes[i].Val = in.evalShow(m, in.res.Observes[i].Term)
 		in.res.Observes[i].Term = nil
+	}
+	for i := range in.res.Exports {
+		in.res.Exports[i].Val = in.evalModel(m, in.res.Exports[i].Term)
+		in.res.Exports[i].Term = nil
 	}
 }
 
